@@ -65,7 +65,7 @@ Definition elem_val (k : fkind) (wc dc : bool) (w b x : CQ) : Q :=
   | KL1R => let d := cqsub x b in
             if dc then (if wc then Qred (Qabs (fst w * fst d) + Qabs (snd w * snd d))
                         else Qred (Qabs (fst w * fst d) + Qabs (fst w * snd d)))
-            else (if wc then cqabs (cqmul w (fst d, 0)) else Qred (Qabs (fst w * fst d)))
+            else Qred (Qabs (fst w * fst d))     (* real data: (self.weight.real * diff).abs() *)
   | KZero => 0
   end.
 
